@@ -63,7 +63,7 @@ class Deep:
                 plugin_resource = provider.resource()
                 if plugin_resource:
                     default_resource = default_resource.merge(plugin_resource)
-            except Exception:
+            except BaseException:
                 deep.logging.exception("Failed to process plugin resource {}", provider.name)
 
         self.config.resource = default_resource
@@ -83,7 +83,9 @@ class Deep:
         for name, step in steps:
             try:
                 step()
-            except Exception:
+            except BaseException:
+                # (BaseException: our own IllegalStateException - raised when a plugin hands in work during its
+                # shutdown - is one, so is asyncio.CancelledError)
                 deep.logging.exception("Failed to shutdown %s", name)
         deep.logging.info("Deep is shutdown.")
         self.started = False
